@@ -104,3 +104,38 @@ Example recovery_example :
   let d := {| dmeta := MJson (Some VThis) (Some HCur); dindex := IMissing |} in
   good d = true /\ crash_run 5 d = {| dmeta := MAbsent; dindex := IOpen Empty |} /\ answers (complete (crash_run 5 d)) = Shipped.
 Proof. vm_compute. repeat split. Qed.
+
+(* starts that keep their index in memory, anywhere in the history *)
+Definition mem_ok (d : disk) : bool := negb (good d) || good (mem_start d).
+Lemma all_mem_ok : forallb mem_ok all_disks = true.
+Proof. vm_compute. reflexivity. Qed.
+Lemma good_mem d : good d = true -> good (mem_start d) = true.
+Proof.
+  intros Hg. pose proof (proj1 (forallb_forall _ _) all_mem_ok d (all_disks_complete d)) as H. unfold mem_ok in H.
+  rewrite Hg in H. exact H.
+Qed.
+Lemma good_events es : forall d, good d = true -> good (fold_left step_event es d) = true.
+Proof.
+  induction es as [|e es IH]; intros d H; cbn [fold_left]; [exact H|]. apply IH. destruct e as [cp|]; cbn [step_event];
+  [now apply good_step|now apply good_mem].
+Qed.
+Theorem recovers_events : forall (es : list event) d, good d = true ->
+  let d' := complete (fold_left step_event es d) in
+  answers d' = Shipped /\ meta_current d' = true.
+Proof.
+  intros es d H. destruct (good_complete _ (good_events es d H)) as (A & _ & M). split; assumption.
+Qed.
+Theorem meta_never_early_events : forall (es : list event) d, good d = true ->
+  let d' := fold_left step_event es d in
+  meta_current d' = true -> dindex d' = IOpen Shipped \/ dindex d' = IMissing \/ dindex d' = IBroken.
+Proof.
+  intros es d H d' Hm. pose proof (good_events es d H) as Hg. fold d' in Hg.
+  unfold good in Hg. rewrite Hm in Hg. cbn in Hg. destruct (dindex d') as [| |[]]; auto; discriminate.
+Qed.
+(* with the guard as translated, a start in memory leaves the data directory exactly as it found it *)
+Theorem memory_start_leaves_disk : forall d, mem_start d = d.
+Proof. intros d. destruct d as [m i]; destruct m as [| |[[]|] [[]|]]; destruct i as [| |[]]; vm_compute; reflexivity. Qed.
+Example memory_example :
+  let d := crash_run 6 {| dmeta := MAbsent; dindex := IMissing |} in
+  d = {| dmeta := MAbsent; dindex := IOpen Empty |} /\ good d = true /\ answers (complete (mem_start d)) = Shipped.
+Proof. vm_compute. repeat split. Qed.
